@@ -2,10 +2,10 @@
 // FACTS_PART selects one header family per clang run (the runs go in parallel).
 #if FACTS_PART == 1
 #include "momo/HashSet.h"
-namespace momo { typedef HashSet<int> FSet; void c03_use_hs() { FSet a; a.Insert(1); FSet b(a); FSet c({ 1, 2 }); } }
+namespace momo { typedef HashSet<int> FSet; void c03_use_hs() { FSet a; a.Insert(1); FSet b(a); FSet c({ 1, 2 }); a.Clear(true); b.Clear(false); } }
 #elif FACTS_PART == 2
 #include "momo/TreeSet.h"
-namespace momo { typedef TreeSet<int> FTree; void c03_use_ts() { FTree a; for (int i = 0; i < 100; ++i) a.Insert(i); FTree b(a); FTree c({ 1, 2 }); a.MergeTo(b); while (!a.IsEmpty()) a.Remove(a.GetBegin()); } }
+namespace momo { typedef TreeSet<int> FTree; void c03_use_ts() { FTree a; for (int i = 0; i < 100; ++i) a.Insert(i); FTree b(a); FTree c({ 1, 2 }); a.MergeTo(b); while (!a.IsEmpty()) a.Remove(a.GetBegin()); b.Clear(); } }
 #elif FACTS_PART == 3
 #include "momo/HashMultiMap.h"
 namespace momo { typedef HashMultiMap<int, int> FMulti; void c03_use_hmm() { FMulti a; a.Add(1, 2); FMulti b(a); } }
